@@ -779,6 +779,28 @@ def inclusion(run, R="INC"):
         run.check(bool(ok_blocks) and not loose, R, "%s|range-every-ok|%s" % (R, name.rsplit("::", 1)[-1]), g.loc(),
                   "%s: every Ok answer (%d) is behind both range tests, or is the answer for an empty file" % (name.rsplit("::", 1)[-1], len(ok_blocks)),
                   "%s can answer Ok without having passed both range tests (block(s) %s): a range past the end of the file would be accepted and answered with other digits than requested" % (name.rsplit("::", 1)[-1], loose))
+        # ... and the empty-file answer is only given when no range was requested (a range of an empty file is past its end)
+        cnt_edges = []
+        for bi, si, st in g.stmts():
+            if st["k"] == "assign" and st["rv"]["k"] == "binop" and st["rv"]["op"] in ("Ge", "Gt", "Lt", "Le", "Eq", "Ne"):
+                l_, r_ = _deep(g, st["rv"]["l"], 4), _deep(g, st["rv"]["r"], 4)
+                if re.search(r"len\(\*?P\d+\.args\)", l_) and r_ in ("2_usize", "1_usize"):
+                    tt = g.blocks[bi]["term"]
+                    if tt["k"] != "switch":
+                        continue
+                    ft = [tg for v, tg in tt["targets"] if v == "0"][0]
+                    op = st["rv"]["op"]
+                    # the edge on which fewer than two arguments were given
+                    few = {("Ge", "2_usize"): ft, ("Gt", "1_usize"): ft, ("Lt", "2_usize"): tt["otherwise"], ("Le", "1_usize"): tt["otherwise"],
+                           ("Eq", "1_usize"): tt["otherwise"], ("Ne", "1_usize"): ft}.get((op, r_))
+                    if few is not None:
+                        cnt_edges.append((bi, few))
+        empties = [b for b in ok_blocks if any(g.edge_dominates(x, e, b) for x, e in empty_edges)
+                   and not (any(g.edge_dominates(x, ft, b) for x, ft, d in starts) and any(g.edge_dominates(x, ft, b) for x, ft, d in ends))]
+        ranged = [b for b in empties if not any(g.edge_dominates(x, e, b) for x, e in cnt_edges)]
+        run.check(not ranged, R, "%s|range-empty-whole-file-only|%s" % (R, name.rsplit("::", 1)[-1]), g.loc(),
+                  "%s: the empty-file answer (%d site(s)) is only given when no range was requested" % (name.rsplit("::", 1)[-1], len(empties)),
+                  "%s answers an empty value for an empty file whatever range was requested (block(s) %s): `(\"empty.bin\", 5, 3)` names bytes past the end of the file and is accepted" % (name.rsplit("::", 1)[-1], ranged))
         run.check(ok, R, "%s|range|%s" % (R, name.rsplit("::", 1)[-1]), g.loc(), "%s: the slice of the file contents is behind the `start < len` and `end <= len` edges" % name.rsplit("::", 1)[-1],
                   "%s can slice the file contents without having passed both range tests (start after EOF / end after EOF)" % name.rsplit("::", 1)[-1])
 
